@@ -61,6 +61,7 @@ def _gen_file(pps, chunks) -> str:
 def limiter_state_does_not_leak(prev: str, a: str, b: str, n: int) -> bool:
     """
     pre: len(prev) <= K and len(a) <= K and len(b) <= K and all(c in SIG for c in prev + a + b) and 0 <= n <= 1
+    pre: _N_ONLY < 0 or n == _N_ONLY
     post: _
     """
     # the SAME processor objects serve every file of a run (and every run of a process): generate a file `prev`, then the file
@@ -139,6 +140,7 @@ def subset_and_order_do_not_matter(mask: int, rot: int, rev: bool) -> bool:
 
 
 _MASK_ONLY = int(os.environ.get("C10_MASK", "-1"))
+_N_ONLY = int(os.environ.get("C10_N", "-1"))
 
 
 # ------------------------------------------------------------------------------------------------ earlier run with other options
@@ -158,7 +160,8 @@ def _fresh_generator():
 
 
 _BASE_OMIT = {o: _gen_A_with(_fresh_generator(), o) for o in (False, True)}     # each from a generator that never ran before
-_G_REUSED = _fresh_generator()                                                  # never used at import time
+_G_REUSED = _fresh_generator()
+_gen_A_with(_G_REUSED, False)       # warm its template cache at import time: compiling templates under tracing costs minutes per path
 
 
 def earlier_run_with_other_options_does_not_matter(omit_first: bool, omit_second: bool) -> bool:
@@ -184,6 +187,16 @@ _ns_b = build_namespace_tree(_types_b, ROOT_B, "/o", _lctx_b)
 _G_B = DSDLCodeGenerator(_ns_b, post_processors=[TrimTrailingWhitespace(), LimitEmptyLines(1)])
 _ALL_B = {t.short_name: (t, p) for t, p in _G_B.namespace.get_all_datatypes()}
 _B_IDX = [i for i, (t, _) in enumerate(_ALL) if t.short_name == "B"][0]
+
+
+def _warm_b() -> None:
+    _FS[0] = FakeFS()
+    _G_B._env.update_nunavut_globals(*_G_B.language_context.get_target_language().get_support_module(), False, False)
+    t, p = _ALL_B["B"]
+    _G_B._generate_type(t, p, False, True)
+
+
+_warm_b()                           # template cache of the second generator (see above)
 
 
 def _includes(text: str) -> typing.List[str]:
@@ -218,3 +231,11 @@ def earlier_run_over_another_tree_does_not_matter(b_first: bool) -> bool:
         fb = _gen_B_of_tree_b()
     fa = list(out.values())[0]
     return _includes(fa) == ["vt/A_1_0.h", "vt/sub/C_1_0.h"] and _includes(fb) == ["vt/A_1_0.h", "vt/sub/D_1_0.h"] and fa == _BASE[list(out)[0]]
+
+
+# executed natively as well (CrossHair runs functools.lru_cache uncached: cache state is invisible to it)
+NATIVE_SMOKE = {
+    "earlier_run_over_another_tree_does_not_matter": [(True,), (False,)],
+    "earlier_run_with_other_options_does_not_matter": [(False, False), (False, True), (True, False), (True, True)],
+    "subset_and_order_do_not_matter": [(7, 0, False), (7, 1, True), (2, 0, False), (5, 1, False)],
+}
